@@ -20,6 +20,7 @@ EXPLANATION = (
     "sum(next_time - time) over them, denominator = measure of merged communication kernels, percentage round(100*ratio,2); plus the interval-union "
     "template of merge_kernel_intervals, the kernel classification chain and the facade binding. Decides template conformance (necessary "
     "conditions), not the numeric value."
+    " Later additions: effect rules; the reference sweep is validated against a brute-force oracle in the thorough tier."
 )
 CA = "hta.analyzers.communication_analysis"
 
